@@ -170,6 +170,37 @@ def task_intrinsic(pr, repo):
         pr.explore(ex, thunk, 'calculate_intrinsic_pka %r' % num)
 
 
+def task_bond_labels(pr, repo):
+    """BL (relational): two pairs of atoms with the same elements and coordinates but arbitrary, independent residue labels get the
+    same bond and the same disulfide marks - whatever the bond rule itself is (that rule is C11's business, not this property's)."""
+    ex = Executor(repo)
+    BMn = 'propka.bonds.BondMaker'
+    fi = repo.func(BMn + '.find_bonds_for_atoms')
+    for n in ('find_bonds_for_atoms', '_find_bonds_for_atoms', 'make_bond', 'check_distance'):
+        pr.under_contract(repo.func(BMn + '.' + n))
+    A = repo.cls('propka.atom.Atom')
+    for e1, e2 in (('S', 'S'), ('C', 'N'), ('H', 'O')):
+        def thunk(ex, ctx, e1=e1, e2=e2):
+            bm = C11.bondmaker(ex, repo)
+            pa, pb = [R('pa' + c) for c in 'xyz'], [R('pb' + c) for c in 'xyz']
+            res = []
+            for run in (0, 1):
+                def mk(nm, el, p_):
+                    return record('%s%d' % (nm, run), A, element=el, x=p_[0], y=p_[1], z=p_[2], bonded_atoms=[], cysteine_bridge=False,
+                                  res_num=I('%s%d_resnum' % (nm, run)), chain_id=mk_str([I('%s%d_chain' % (nm, run))]),
+                                  icode=mk_str([I('%s%d_icode' % (nm, run))]), numb=I('%s%d_numb' % (nm, run)),
+                                  res_name=mk_str([I('%s%d_rn%d' % (nm, run, k)) for k in range(3)]), name=el + 'X')
+                a, b = mk('a', e1, pa), mk('b', e2, pb)
+                ctx.assume(a.attrs['numb'] != b.attrs['numb'])       # two records of one file carry different serial numbers
+                ex.call_function(fi, [[a, b]], self_obj=bm)
+                res.append((any(x is b for x in a.attrs['bonded_atoms']), any(x is a for x in b.attrs['bonded_atoms']),
+                            a.attrs['cysteine_bridge'], b.attrs['cysteine_bridge']))
+            ctx.oblige('BL[%s-%s]: bond and disulfide marks of a pair do not depend on chain id, residue number, insertion code or '
+                       'residue name' % (e1, e2),
+                       And(*[Sym(to_bool(x)) == Sym(to_bool(y)) for x, y in zip(res[0], res[1])]))
+        pr.explore(ex, thunk, 'bond labels %s-%s' % (e1, e2))
+
+
 def run(pr, repo):
     pr.level = 'other'
     pr.explanation = ('deductive core (VC + frame census) plus bounded relabelling monitor; level "other" because the insertion-code '
@@ -179,7 +210,7 @@ def run(pr, repo):
     pr.parallel([(task_same_residue, ()), (task_eq_label, ()), (task_sort_key, ()), (C05.task_set_determinants, ()),
                  (C05.task_iterative, ()), (C08.task_average_twins, ()),
                  # bonds and disulfide flags are decided by elements and distance only - residue labels are symbolic there
-                 (C11.task_boxes_pair, ('S', 'S', False, (0,))), (C11.task_boxes_pair, ('C', 'N', False, (0,))), (task_intrinsic, ())])
+                 (task_bond_labels, ()), (task_intrinsic, ())])
     for f, allowed in READERS.items():
         frames.clause(pr, repo, 'readers of .%s are the declared ones' % f, f, 'readers', allowed)
     pr.assumptions += ['atom order (changed by relabelling through the sort key) only permutes commutative sums: A-REAL',
